@@ -374,8 +374,66 @@ fn seipd2_admit(ctx: &mut Ctx, rng: &mut ChaCha8Rng) {
     }
 }
 
+/// hostile ECDH keys: the two KDF parameter octets (hash, key-wrap cipher) of a recipient's own ECDH
+/// subkey replaced by every pair of octets — a digest shorter than the cipher's key, unknown ids,
+/// ciphers that are not AES — and the key then USED: decrypt a PKESK, encrypt to it
+fn ecdh_kdf_param_sweep(ctx: &mut Ctx, ring: &Ring, rng: &mut ChaCha8Rng) {
+    let hashes: Vec<u8> = if ctx.thorough() { (0u8..=16).chain([99, 110, 255]).collect() } else { vec![0, 1, 2, 3, 8, 9, 10, 11, 12, 14, 99] };
+    let syms: Vec<u8> = if ctx.thorough() { (0u8..=14).chain([99, 110, 255]).collect() } else { vec![0, 1, 2, 3, 4, 7, 8, 9, 10, 11, 13, 99] };
+    for (name, sk) in &ring.keys {
+        if !name.starts_with("ecdh") {
+            continue;
+        }
+        let sub = &sk.secret_subkeys[0];
+        let Ok(body) = sub.key.to_bytes() else { continue };
+        // the KDF parameters field: 03 01 <hash> <sym>, the last field of the public part
+        let pub_len = sub.key.public_key().to_bytes().map(|b| b.len()).unwrap_or(0);
+        if pub_len < 4 || body[pub_len - 4] != 3 || body[pub_len - 3] != 1 {
+            ctx.stat("ecdh_kdf:field_not_found");
+            continue;
+        }
+        let plain = plain_for(rng, EskType::V3_4, 19, 7, true);
+        let Ok(Ok(vals)) = guard(|| sub.public_key().encrypt(&mut *rng, &plain, EskType::V3_4)) else { continue };
+        for &h in &hashes {
+            for &c in &syms {
+                let mut b = body.clone();
+                b[pub_len - 2] = h;
+                b[pub_len - 1] = c;
+                let pkt = crate::wire::packet(7, &b);
+                let parsed = guard(|| {
+                    let mut src: &[u8] = &pkt;
+                    match pgp::packet::PacketParser::new(&mut src).next() {
+                        Some(Ok(Packet::SecretSubkey(k))) => Some(k),
+                        _ => None,
+                    }
+                });
+                let input = format!("key={name} kdf_hash={h} kdf_sym={c} packet={}", hx(&pkt));
+                let k = match parsed {
+                    Ok(Some(k)) => k,
+                    Ok(None) => {
+                        ctx.stat("ecdh_kdf:key_refused_at_parse");
+                        continue;
+                    }
+                    Err(p) => {
+                        ctx.oracle("no_panic", "PacketParser (secret subkey with hostile ECDH KDF parameters)", &input, false, &p);
+                        continue;
+                    }
+                };
+                let t = Instant::now();
+                let r = guard(|| k.decrypt(&Password::empty(), &vals, EskType::V3_4).and_then(|x| x));
+                no_panic(ctx, "SecretSubkey::decrypt with hostile ECDH KDF parameters (crypto/ecdh.rs)", &input, &r, t);
+                let t = Instant::now();
+                let r2 = guard(|| k.public_key().encrypt(&mut *rng, &plain, EskType::V3_4));
+                no_panic(ctx, "PublicSubkey::encrypt with hostile ECDH KDF parameters (crypto/ecdh.rs)", &input, &r2, t);
+                ctx.stat(&format!("ecdh_kdf:{}:{}", super::cls(&r), super::cls(&r2)));
+            }
+        }
+    }
+}
+
 pub fn run(ctx: &mut Ctx, ring: &Ring) {
     let mut rng = ChaCha8Rng::seed_from_u64(ctx.seed ^ 0xC04B);
+    ecdh_kdf_param_sweep(ctx, ring, &mut rng);
     pkesk_sweep(ctx, ring, &mut rng);
     pkesk_messages(ctx, ring, &mut rng);
     skesk_sweep(ctx, &mut rng);
